@@ -3,7 +3,7 @@ import Logrange.Go.Basic
 # C07 — file system under the sequential crash model, codec contracts
 
 A disk is `Path → Option Bytes`. Persistence code is a list of **steps** (`rename a b`, `truncate p`,
-`append p bytes`, `remove p`). A **crash cut** stops after any step; an `append` may be cut at any byte prefix.
+`append p bytes`, `remove p`, `link a b`). A **crash cut** stops after any step; an `append` may be cut at any byte prefix.
 This is the friendliest crash model (no reordering, no lost renames): a violation under it is a violation
 under any real file system; absence of violations is claimed for this model only.
 
@@ -20,7 +20,7 @@ namespace Logrange.Persist
 inductive Path where
   | tindexDat
   | tindexBak
-  | tindexTmp                  -- not used by the current code (a write-to-temp repair would use it)
+  | tindexTmp                  -- `tindex.dat.tmp`
   | cindexDat
   | pipesDir (fname : Bytes)   -- a file of the pipes directory
 deriving DecidableEq, Repr
@@ -35,6 +35,7 @@ inductive Step where
   | truncate (p : Path)               -- open(O_CREATE|O_TRUNC)
   | append (p : Path) (bs : Bytes)    -- write
   | remove (p : Path)
+  | link (a b : Path)                 -- hard link: `b` becomes a second name of `a`'s content; fails when `b` exists
 deriving Repr
 
 def applyStep (f : Files) : Step → Files
@@ -45,6 +46,12 @@ def applyStep (f : Files) : Step → Files
   | .truncate p => f.set p (some [])
   | .append p bs => f.set p (some ((f p).getD [] ++ bs))
   | .remove p => f.set p none
+  | .link a b =>
+    -- the code never rewrites a linked file in place afterwards (it is replaced by a rename), so the shared inode is
+    -- modelled as a copy of the content
+    match f a, f b with
+    | some v, none => f.set b (some v)
+    | _, _ => f
 
 def runSteps (f : Files) (steps : List Step) : Files := steps.foldl applyStep f
 
